@@ -70,7 +70,7 @@ func c10Specs(tier string, seed int) []c10Spec {
 	var out []c10Spec
 	maxN := 4
 	if tier == "thorough" {
-		maxN = 5
+		maxN = 6
 	}
 	fmts := []string{"DateDElong", "DateENlong", "DateDEshort", "DateENshort"}
 	win := map[string][]int{"start": {-3, -2, -1, 0, 1, 2, 3, 4, 5, 6, 7, 8}, "end": {c10Len - 9, c10Len - 8, c10Len - 7, c10Len - 6, c10Len - 5, c10Len - 4, c10Len - 3, c10Len - 2, c10Len - 1, c10Len, c10Len + 1, c10Len + 2}}
@@ -137,7 +137,7 @@ func init() {
 			if t == "quick" {
 				return "all event lists of <= 4 events on 12 offsets x 2 windows x 3 kinds (4 date formats, 4 other-field layouts, 3 factors rotating); 29 fertiliser types; sowing/harvest pairs; mixed schedules"
 			}
-			return "all event lists of <= 5 events (irrigation <= 6) on 12 offsets x 2 windows x 3 kinds; 29 fertiliser types; sowing/harvest pairs; mixed schedules"
+			return "all event lists of <= 6 events (irrigation <= 7) on 12 offsets x 2 windows x 3 kinds; 29 fertiliser types; sowing/harvest pairs; mixed schedules"
 		},
 		Budget: func(t string) time.Duration {
 			if t == "quick" {
